@@ -47,6 +47,12 @@ extern int g_b;                                      /* ghost table block */
                 __CPROVER_assert((p) == (e), "ghost: " #p " already equals " #e);                  \
                 (p) = (e);                                                                         \
         } while (0)
+/* canary inside loop hooks; switched off for the *_empty harnesses, whose loops never iterate */
+#ifdef EC_NO_HOOK_CANARY
+#define HCANARY() ((void) 0)
+#else
+#define HCANARY() VCANARY()
+#endif
 #define EC_GHOST_IN(rows, len) (0 <= g_l && g_l < (rows) && 0 <= g_i && g_i < (len))
 
 /* ------------------------------------------------------------------ C03: ec_encode_data_base */
@@ -74,8 +80,8 @@ extern int g_b;                                      /* ghost table block */
         __CPROVER_loop_invariant(0 <= j && j <= srcs)                                              \
         __CPROVER_loop_invariant((l == g_l && i == g_i) ==> s == S_ec[j])                          \
         __CPROVER_decreases(srcs - j)
-#define H_ec_encode_data_base_1 VCANARY();
-#define H_ec_encode_data_base_2 VCANARY();
+#define H_ec_encode_data_base_1 HCANARY();
+#define H_ec_encode_data_base_2 HCANARY();
 #define H_ec_encode_data_base_3                                                                    \
         if (l == g_l && i == g_i) {                                                                \
                 unsigned char t__ = EC_TERM(src[j][g_i], v, g_l, srcs, j);                         \
@@ -83,7 +89,7 @@ extern int g_b;                                      /* ghost table block */
                 w_src[j] = src[j][g_i];                                                            \
                 w_coef[j] = EC_COEF(v, g_l, srcs, j);                                              \
         }                                                                                          \
-        VCANARY();
+        HCANARY();
 
 /* ---------------------------------------------------------------- C03: gf_vect_dot_prod_base */
 /* one output row: coefficient j is v[j*32+1]; src[] built by the harness (vlen <= EC_KMAX) */
@@ -104,7 +110,7 @@ extern int g_b;                                      /* ghost table block */
         __CPROVER_loop_invariant(0 <= j && j <= vlen)                                              \
         __CPROVER_loop_invariant((i == g_i) ==> s == S_ec[j])                                      \
         __CPROVER_decreases(vlen - j)
-#define H_gf_vect_dot_prod_base_1 VCANARY();
+#define H_gf_vect_dot_prod_base_1 HCANARY();
 #define H_gf_vect_dot_prod_base_2                                                                  \
         if (i == g_i) {                                                                            \
                 unsigned char t__ = EC_TERM(src[j][g_i], v, 0, vlen, j);                           \
@@ -112,7 +118,7 @@ extern int g_b;                                      /* ghost table block */
                 w_src[j] = src[j][g_i];                                                            \
                 w_coef[j] = EC_COEF(v, 0, vlen, j);                                                \
         }                                                                                          \
-        VCANARY();
+        HCANARY();
 
 /* --------------------------------------------------------------------- C13: gf_vect_mad_base */
 /* dest[g_i] ^= src[g_i] * coefficient vec_i.  The ghost byte is required in range (len >= 1) so that
@@ -125,14 +131,16 @@ extern int g_b;                                      /* ghost table block */
         __CPROVER_ensures(dest[g_i] == (unsigned char) (__CPROVER_old(dest[g_i]) ^ EC_TERM(src[g_i], v, 0, vec, vec_i))) \
         __CPROVER_assigns(__CPROVER_object_upto(dest, len), w_old, w_term)
 #define E_gf_vect_mad_base                                                                         \
-        w_old = dest[g_i];                                                                         \
-        w_term = EC_TERM(src[g_i], v, 0, vec, vec_i);
+        if (0 <= g_i && g_i < len) {                                                               \
+                w_old = dest[g_i];                                                                 \
+                w_term = EC_TERM(src[g_i], v, 0, vec, vec_i);                                      \
+        }
 #define L_gf_vect_mad_base_1                                                                       \
         __CPROVER_assigns(i, s, __CPROVER_object_upto(dest, len))                                  \
         __CPROVER_loop_invariant(0 <= i && i <= len)                                               \
         __CPROVER_loop_invariant(dest[g_i] == (g_i < i ? (unsigned char) (w_old ^ w_term) : w_old)) \
         __CPROVER_decreases(len - i)
-#define H_gf_vect_mad_base_1 VCANARY();
+#define H_gf_vect_mad_base_1 HCANARY();
 
 /* ----------------------------------------------------------- C13: ec_encode_data_update_base */
 #define C_ec_encode_data_update_base                                                               \
@@ -143,8 +151,10 @@ extern int g_b;                                      /* ghost table block */
                           (unsigned char) (__CPROVER_old(dest[g_l][g_i]) ^ EC_TERM(data[g_i], v, g_l, k, vec_i))) \
         __CPROVER_assigns(EC_DEST_OBJS(dest), w_old, w_term)
 #define E_ec_encode_data_update_base                                                               \
-        w_old = dest[g_l][g_i];                                                                    \
-        w_term = EC_TERM(data[g_i], v, g_l, k, vec_i);
+        if (EC_GHOST_IN(rows, len)) {                                                              \
+                w_old = dest[g_l][g_i];                                                            \
+                w_term = EC_TERM(data[g_i], v, g_l, k, vec_i);                                     \
+        }
 #define L_ec_encode_data_update_base_1                                                             \
         __CPROVER_assigns(l, i, s, EC_DEST_OBJS(dest))                                             \
         __CPROVER_loop_invariant(0 <= l && l <= rows)                                              \
@@ -156,8 +166,8 @@ extern int g_b;                                      /* ghost table block */
         __CPROVER_loop_invariant(dest[g_l][g_i] ==                                                 \
                                  ((g_l < l || (g_l == l && g_i < i)) ? (unsigned char) (w_old ^ w_term) : w_old)) \
         __CPROVER_decreases(len - i)
-#define H_ec_encode_data_update_base_1 VCANARY();
-#define H_ec_encode_data_update_base_2 VCANARY();
+#define H_ec_encode_data_update_base_1 HCANARY();
+#define H_ec_encode_data_update_base_2 HCANARY();
 
 /* --------------------------------------------------------------------- C13: gf_vect_mul_base */
 /* constant multiply: the constant is a[1]; len not a multiple of 32 -> -1 and nothing written */
@@ -186,18 +196,21 @@ extern int g_b;                                      /* ghost table block */
 #define H_gf_vect_mul_base_1                                                                       \
         GHOST_SAME_VALUE(dest, gh_d0 + (gh_n0 - len - 1));                                         \
         GHOST_SAME_VALUE(src, gh_s0 + (gh_n0 - len - 1));                                          \
-        VCANARY();
+        HCANARY();
 
 /* ------------------------------------------------------------------ C12: ec_init_tables_base */
 /* Block n of g_tbls is the 32-byte expansion of a[n] for every n < k*rows (n = i*k+j enumerates exactly
  * 0..k*rows-1, so this is the statement "block (i*k+j) expands a[i*k+j]").  Ghost block g_b, ghost
  * entry g_ti < 16.  The proof counts blocks with ghost locals (gh_n done, gh_rest = (rows-i)*k still to
  * come) so that the only non-linear fact the solver needs is (x-1)*k == x*k-k. */
+#ifndef EC_TBL_MAX
+#define EC_TBL_MAX 255
+#endif
 #define EC_TBL_IN (0 <= g_b && g_b < k * rows)
 #define EC_TBL_LO(t) ((t)[(size_t) g_b * 32 + g_ti])
 #define EC_TBL_HI(t) ((t)[(size_t) g_b * 32 + 16 + g_ti])
 #define C_ec_init_tables_base                                                                      \
-        __CPROVER_requires(0 <= k && k <= 255 && 0 <= rows && rows <= 255 && g_ti < 16)            \
+        __CPROVER_requires(0 <= k && k <= EC_TBL_MAX && 0 <= rows && rows <= EC_TBL_MAX && g_ti < 16)          \
         __CPROVER_requires(__CPROVER_is_fresh(a, (size_t) k * rows))                               \
         __CPROVER_requires(__CPROVER_is_fresh(g_tbls, (size_t) 32 * k * rows))                     \
         __CPROVER_ensures(EC_TBL_IN ==> EC_TBL_LO(g_tbls) == spec_gf_mul(a[g_b], (unsigned char) g_ti)) \
@@ -223,7 +236,7 @@ extern int g_b;                                      /* ghost table block */
         __CPROVER_decreases(rows - i)
 #define H_ec_init_tables_base_1                                                                    \
         gh_rest -= k;                                                                              \
-        VCANARY();
+        HCANARY();
 #define L_ec_init_tables_base_2                                                                    \
         __CPROVER_assigns(j, a, g_tbls, gh_n, __CPROVER_object_whole(gh_t0))                       \
         __CPROVER_loop_invariant(0 <= j && j <= k)                                                 \
@@ -236,6 +249,6 @@ extern int g_b;                                      /* ghost table block */
         GHOST_SAME_VALUE(a, gh_a0 + gh_n);                                                         \
         GHOST_SAME_VALUE(g_tbls, gh_t0 + (size_t) 32 * gh_n);                                      \
         gh_n++;                                                                                    \
-        VCANARY();
+        HCANARY();
 
 #endif
